@@ -18,9 +18,6 @@ structure Exts where
   j5 : Option J5Ext
   deriving Repr
 
-def trimPrefix (pre s : String) : String :=
-  if hasPrefix pre s then String.ofList (s.toList.drop pre.length) else s
-
 def trimSuffix (suf s : String) : String :=
   if hasSuffix suf s then String.ofList (s.toList.take (s.length - suf.length)) else s
 
